@@ -185,7 +185,8 @@ func (d *Decoder) decodeValue(value reflect.Value) {
 		}
 
 	case reflect.Ptr:
-		if o, ok := value.Interface().(Object); ok {
+		// pointer to enum value implements Object too, but it's not a struct: decoding it as plain value
+		if o, ok := value.Interface().(Object); ok && value.Type().Elem().Kind() == reflect.Struct {
 			d.decodeObject(o, false)
 		} else {
 			d.decodeValue(value.Elem())
@@ -324,6 +325,11 @@ func (d *Decoder) decodeRegisteredObject() Object {
 		return nil
 	}
 
+	if _, isEnum := enumCrcs[crc]; isEnum {
+		// enums are registered as values (their type is uint32-like, not pointer to struct): crc is the value
+		return reflect.ValueOf(crc).Convert(_typ).Interface().(Object)
+	}
+
 	o := reflect.New(_typ.Elem()).Interface().(Object)
 
 	if m, ok := o.(Unmarshaler); ok {
@@ -335,12 +341,10 @@ func (d *Decoder) decodeRegisteredObject() Object {
 		return o
 	}
 
-	if _, isEnum := enumCrcs[crc]; !isEnum {
-		d.decodeObject(o, true)
-		if d.err != nil {
-			d.err = errors.Wrapf(d.err, "decode registered object %T", o)
-			return nil
-		}
+	d.decodeObject(o, true)
+	if d.err != nil {
+		d.err = errors.Wrapf(d.err, "decode registered object %T", o)
+		return nil
 	}
 
 	return o
